@@ -121,6 +121,9 @@ def engine_cases(
         plan.insert(draw(st.integers(max(0, len(plan) - 2), len(plan))), e)
     sched = draw(st.lists(st.integers(0, 7), max_size=max_sched))
     case = {"tokens": toks, "jobs": jobs, "plan": plan, "sched": sched}
+    if foreign and file_toks and any(e[0] in ("facq", "fopen") for e in extras) and chance(draw, 35):
+        # threads of the other schedulers that watch our jobs run before our scheduler handles the exit
+        case["reclaim_first"] = True
     if runs2_pct and chance(draw, runs2_pct):
         case["runs"] = 2
         if toks and chance(draw, 50):
